@@ -306,12 +306,20 @@ theorem take_drop_reinsert {α : Type} (l : List α) (j : Nat) (x : α) (hx : l[
   conv => rhs; rw [← List.take_append_drop j l, List.drop_eq_getElem_cons hj, hget]
 
 /-- the record list after `hostlist_delete_nth`, whatever happens to iterators -/
-theorem deleteNthE_ranges (cfg : Cfg) (e : EL) (n : Nat) :
-    (deleteNthE cfg e n).ranges = deleteNthR e.ranges n 0 ∧ (deleteNthE cfg e n).nhosts = e.nhosts - 1 := by
+theorem deleteNthE_fields (cfg : Cfg) (e : EL) (n : Nat) :
+    (deleteNthE cfg e n).rs = (deleteNthE0 cfg e n).rs ∧ (deleteNthE cfg e n).nhosts = (deleteNthE0 cfg e n).nhosts ∧
+    (deleteNthE cfg e n).nextId = (deleteNthE0 cfg e n).nextId ∧
+    ((deleteNthE0 cfg e n).its = [] → (deleteNthE cfg e n).its = []) := by
+  unfold deleteNthE
+  simp only
+  split <;> simp_all [delIts]
+
+theorem deleteNthE0_ranges (cfg : Cfg) (e : EL) (n : Nat) :
+    (deleteNthE0 cfg e n).ranges = deleteNthR e.ranges n 0 ∧ (deleteNthE0 cfg e n).nhosts = e.nhosts - 1 := by
   have hr := deleteNthRs_ranges e.nextId e.rs n 0 0
   have hrg : List.map (fun x => x.r) e.rs = e.ranges := rfl
   rw [hrg] at hr
-  unfold deleteNthE
+  unfold deleteNthE0
   generalize hres : deleteNthRs e.nextId e.rs n 0 0 = res at hr
   obtain ⟨rs', c⟩ := res
   cases c with
@@ -342,6 +350,12 @@ theorem deleteNthE_ranges (cfg : Cfg) (e : EL) (n : Nat) :
         (rs'.take i ++ rs'.drop (i + 1)).map (·.r) := rfl
     rw [hrr, ← List.map_take, ← List.map_drop, ← List.map_cons, ← List.map_append]
     rw [take_drop_reinsert rs' i x hx]
+
+theorem deleteNthE_ranges (cfg : Cfg) (e : EL) (n : Nat) :
+    (deleteNthE cfg e n).ranges = deleteNthR e.ranges n 0 ∧ (deleteNthE cfg e n).nhosts = e.nhosts - 1 := by
+  obtain ⟨h1, h2, _, _⟩ := deleteNthE_fields cfg e n
+  have h0 := deleteNthE0_ranges cfg e n
+  exact ⟨by show (deleteNthE cfg e n).rs.map (·.r) = _; rw [h1]; exact h0.1, by rw [h2]; exact h0.2⟩
 
 /-- DELETE BY POSITION (`hostlist_delete_nth`): the list denotes the old hosts without position n,
     the counter follows, the records stay good — with any number of live iterators -/
